@@ -324,7 +324,8 @@ func (a *Agent) sender() {
 // to  other nodes based on the routing policy applied
 func (a *Agent) Send(msg *Message) {
 	// if ttl is 0, the message dies here
-	if msg.TTL == 0 {
+	if msg.TTL <= 0 {
+		// exhausted (a negative TTL would otherwise never reach zero)
 		return
 	}
 
